@@ -92,4 +92,174 @@ theorem step_isolated {st st' : State} {t : Tid} {a b : Name} {rest : List Op} {
     cases hpc : (st.threads t).pc <;> simp only [step, htn, htodo, hpc, if_false] at hs <;>
       (repeat' split at hs) <;> (try cases hs) <;> (try rfl) <;> (try (simp only [foldl_flush_kgs]))
 
+/-! ### shard metadata files: every shard owns the file at its name, provided file names are distinct -/
+
+theorem lookup_put_same {β} (k : Name) (v : β) : ∀ l : List (Name × β), lookup k (put k v l) = some v := by
+  intro l
+  induction l with
+  | nil => simp [put, lookup]
+  | cons e l ih =>
+    obtain ⟨x, y⟩ := e
+    simp only [put]
+    split
+    · rename_i hx; simp [lookup, hx]
+    · rename_i hx; simp [lookup, hx, ih]
+
+theorem lookup_append_new {β} (k s : Name) (v : β) (l : List (Name × β)) (hs : lookup s l = none) :
+    lookup k (l ++ [(s, v)]) = if k = s then some v else lookup k l := by
+  induction l with
+  | nil => by_cases h : k = s <;> simp [lookup, h, eq_comm]
+  | cons e l ih =>
+    obtain ⟨x, y⟩ := e
+    simp only [lookup] at hs
+    split at hs
+    · cases hs
+    · rename_i hx
+      simp only [List.cons_append, lookup]
+      by_cases hk : x = k
+      · have : ¬ k = s := fun e => hx (hk.trans e)
+        simp [hk, this]
+      · simp [hk, ih hs]
+
+theorem lookup_erase_same {β} (k : Name) (l : List (Name × β)) : lookup k (erase k l) = none := by
+  induction l with
+  | nil => simp [erase, lookup]
+  | cons e l ih =>
+    obtain ⟨x, y⟩ := e
+    unfold erase at ih ⊢
+    rw [List.filter_cons]
+    by_cases hx : x = k
+    · subst hx; simp only [bne_self_eq_false, Bool.false_eq_true, if_false]; exact ih
+    · have hne : (x != k) = true := by simpa using hx
+      simp only [hne, if_true, lookup, hx, if_false]; exact ih
+
+theorem lookup_mem {β} (k : Name) (v : β) : ∀ l : List (Name × β), lookup k l = some v → (k, v) ∈ l := by
+  intro l
+  induction l with
+  | nil => intro h; simp [lookup] at h
+  | cons e l ih =>
+    obtain ⟨x, y⟩ := e
+    intro h
+    simp only [lookup] at h
+    split at h
+    · rename_i hx; cases h; subst hx; simp
+    · exact List.mem_cons_of_mem _ (ih h)
+
+/-- every shard of the in-memory map finds, at *its* file name, *its* metadata with its batches -/
+def Owns (st : State) : Prop :=
+  ∀ s sh, lookup s st.mem = some sh → lookup (metaFile s) st.files = some (s, sh.batches)
+
+/-- no other shard of the map shares the metadata file of `s` -/
+def FileInj (st : State) (s : Name) : Prop :=
+  ∀ s', (lookup s' st.mem).isSome = true → metaFile s' = metaFile s → s' = s
+
+/-- decidable form: pairwise distinct file names on a list of shard names -/
+def distinctFiles (names : List Name) : Bool :=
+  names.all (fun a => names.all (fun b => a == b || metaFile a != metaFile b))
+
+theorem fileInj_of_distinct {st : State} {names : List Name} {s : Name} (hd : distinctFiles names = true)
+    (hmem : ∀ s', (lookup s' st.mem).isSome = true → s' ∈ names) (hs : s ∈ names) : FileInj st s := by
+  intro s' h1 h2
+  have := List.all_eq_true.mp (List.all_eq_true.mp hd s' (hmem s' h1)) s hs
+  simp only [Bool.or_eq_true, beq_iff_eq, bne_iff_ne, ne_eq] at this
+  rcases this with h | h
+  · exact h
+  · exact absurd h2 h
+
+theorem owns_ensureShard {st : State} {s : Name} (h : Owns st) (hi : FileInj st s) : Owns (ensureShard st s) := by
+  unfold ensureShard
+  cases hl : lookup s st.mem with
+  | some sh => simpa using h
+  | none =>
+    intro s' sh' hs'
+    simp only at hs' ⊢
+    rw [lookup_append_new _ _ _ _ hl] at hs'
+    by_cases he : s' = s
+    · subst he; simp only [if_true] at hs'; cases hs'; exact lookup_put_same _ _ _
+    · simp only [he, if_false] at hs'
+      have hne : metaFile s' ≠ metaFile s := fun e => he (hi s' (by simp [hs']) e)
+      rw [lookup_put_ne _ _ _ _ hne]; exact h s' sh' hs'
+
+theorem owns_appendUpd {st : State} {s : Name} {u : Upd} (h : Owns st) (hs : (lookup s st.mem).isSome = true) :
+    Owns (appendUpd st s u) := by
+  intro s' sh' hs'
+  unfold appendUpd at hs' ⊢
+  simp only at hs' ⊢
+  by_cases he : s' = s
+  · subst he
+    rw [lookup_put_same] at hs'; cases hs'
+    cases hl : lookup s' st.mem with
+    | none => simp [hl] at hs
+    | some sh0 => simpa [hl] using h s' sh0 hl
+  · rw [lookup_put_ne _ _ _ _ he] at hs'; exact h s' sh' hs'
+
+theorem owns_flushShard {st : State} {s : Name} (h : Owns st) (hi : FileInj st s) : Owns (flushShard st s) := by
+  unfold flushShard
+  cases hl : lookup s st.mem with
+  | none => simpa using h
+  | some sh =>
+    simp only
+    split
+    · exact h
+    · intro s' sh' hs'
+      simp only at hs' ⊢
+      by_cases he : s' = s
+      · subst he; rw [lookup_put_same] at hs'; cases hs'; exact lookup_put_same _ _ _
+      · rw [lookup_put_ne _ _ _ _ he] at hs'
+        have hne : metaFile s' ≠ metaFile s := fun e => he (hi s' (by simp [hs']) e)
+        rw [lookup_put_ne _ _ _ _ hne]; exact h s' sh' hs'
+
+theorem owns_deleteShard {st : State} {s : Name} (h : Owns st) (hi : FileInj st s) : Owns (deleteShard st s) := by
+  intro s' sh' hs'
+  unfold deleteShard at hs' ⊢
+  simp only at hs' ⊢
+  by_cases he : s' = s
+  · subst he; rw [lookup_erase_same] at hs'; cases hs'
+  · rw [lookup_erase_ne _ _ _ he] at hs'
+    have hne : metaFile s' ≠ metaFile s := fun e => he (hi s' (by simp [hs']) e)
+    rw [lookup_erase_ne _ _ _ hne]; exact h s' sh' hs'
+
+/-- start-up (`load_shards`: one map entry per metadata file, named by the name inside the file) finds
+    every shard that owned its file, with exactly its flushed batches -/
+theorem owns_load {st : State} (h : Owns st) (s : Name) (sh : ShardMem) (hs : lookup s st.mem = some sh) :
+    (s, ({ batches := sh.batches, buffer := [] } : ShardMem)) ∈
+      st.files.map (fun f => (f.2.1, ({ batches := f.2.2, buffer := [] } : ShardMem))) := by
+  have := lookup_mem _ _ _ (h s sh hs)
+  exact List.mem_map.mpr ⟨_, this, rfl⟩
+
+/-! ### the file-name function is injective away from `_` and `/` -/
+def safeChar (c : Char) : Bool := c != '/' && c != '_'
+
+theorem sanitize_inj : ∀ (a b : Name), a.all safeChar = true → b.all safeChar = true → sanitize a = sanitize b → a = b := by
+  intro a
+  induction a with
+  | nil => intro b _ _ h; cases b with
+    | nil => rfl
+    | cons y b => simp [sanitize] at h
+  | cons x a ih =>
+    intro b ha hb h
+    cases b with
+    | nil => simp [sanitize] at h
+    | cons y b =>
+      simp only [sanitize, List.map_cons, List.cons.injEq] at h
+      simp only [List.all_cons, Bool.and_eq_true] at ha hb
+      have hxy : x = y := by
+        have hx := ha.1; have hy := hb.1
+        simp only [safeChar, Bool.and_eq_true, bne_iff_ne, ne_eq] at hx hy
+        have h1 := h.1
+        by_cases c1 : x = ':' ∨ x = '/' <;> by_cases c2 : y = ':' ∨ y = '/' <;> simp only [c1, c2, if_true, if_false] at h1
+        · rcases c1 with c1 | c1
+          · rcases c2 with c2 | c2
+            · rw [c1, c2]
+            · exact absurd c2 hy.1
+          · exact absurd c1 hx.1
+        · exact absurd h1.symm hy.2
+        · exact absurd h1 hx.2
+        · exact h1
+      rw [hxy, ih b ha.2 hb.2 (by simpa [sanitize] using h.2)]
+
+theorem metaFile_inj (a b : Name) (ha : a.all safeChar = true) (hb : b.all safeChar = true)
+    (h : metaFile a = metaFile b) : a = b :=
+  sanitize_inj a b ha hb (List.append_cancel_right h)
+
 end ILV.KStep
